@@ -389,6 +389,125 @@ pub fn gen_seq(seed: u64, ncases: u64, maxlen: u64, zero_ok: bool, rebuilds: boo
     }
 }
 
+/// E-seqx: SYSTEMATIC small-scope histories on one level (no random choice inside a history).
+/// A history is: add o1 (id A) ; optionally add o2 (id B) ; k operations from a fixed alphabet ; one draining match.
+/// o1 ranges over 15 representative orders (all seven kinds; zero display; hidden smaller / larger than the
+/// display; every reserve configuration incl. replenish amount 0, the default and a threshold above the display),
+/// o2 over {none, Standard, Iceberg, Reserve}, the alphabet has 22 operations (matches of five sizes, cancel,
+/// quantity amends up / down / to zero, price moves to the same and to another price, price+quantity and replace
+/// both ways, re-adding id A, adding a third id, a read). quick: every history with k = 1 (1 320) plus a seeded
+/// sample of 1 500 with k = 2; thorough: every history with k = 2 (29 040) and, split over the shards, every
+/// history with k = 3 (638 880).
+pub fn gen_seqx(seed: u64, thorough: bool, out: &Sink) {
+    let price = 100u64;
+    let a = pool_id(1);
+    let b = pool_id(2);
+    let c = pool_id(6);
+    let t = pool_id(900);
+    let g = TimeInForce::Gtc;
+    let o1s: Vec<Order> = vec![
+        mk_order(0, a, price, 5, 0, 0, None, false, Side::Sell, 1, g),
+        mk_order(0, a, price, 0, 0, 0, None, false, Side::Sell, 1, g),
+        mk_order(1, a, price, 2, 0, 0, None, false, Side::Buy, 1, g),
+        mk_order(2, a, price, 3, 0, 0, None, false, Side::Sell, 1, g),
+        mk_order(3, a, price, 4, 7, 2, None, false, Side::Sell, 1, g),
+        mk_order(4, a, price, 4, 1, 5, None, false, Side::Buy, 1, g),
+        mk_order(5, a, price, 2, 3, 0, None, false, Side::Sell, 1, g),
+        mk_order(5, a, price, 0, 3, 0, None, false, Side::Sell, 1, g),
+        mk_order(5, a, price, 5, 0, 0, None, false, Side::Sell, 1, g),
+        mk_order(5, a, price, 2, 1, 0, None, false, Side::Buy, 1, g),
+        mk_order(6, a, price, 2, 5, 0, None, true, Side::Sell, 1, g),
+        mk_order(6, a, price, 2, 5, 2, Some(2), true, Side::Sell, 1, g),
+        mk_order(6, a, price, 2, 5, 1, Some(1), false, Side::Sell, 1, g),
+        mk_order(6, a, price, 0, 4, 0, Some(0), true, Side::Sell, 1, g),
+        mk_order(6, a, price, 3, 1, 5, Some(80), true, Side::Buy, 1, g),
+    ];
+    let o2s: Vec<Option<Order>> = vec![
+        None,
+        Some(mk_order(0, b, price, 5, 0, 0, None, false, Side::Sell, 2, g)),
+        Some(mk_order(5, b, price, 2, 3, 0, None, false, Side::Sell, 0, g)),
+        Some(mk_order(6, b, price, 1, 3, 1, Some(2), true, Side::Sell, 2, g)),
+    ];
+    use pricelevel::OrderUpdate as U;
+    #[derive(Clone)]
+    enum X { Match(u64), Upd(String, U), Add(Order), Read(&'static str) }
+    let mut alpha: Vec<X> = Vec::new();
+    for q in [1u64, 2, 3, 6, 100] { alpha.push(X::Match(q)); }
+    for id in [a, b] { alpha.push(X::Upd(format!("upd cancel {}", show_id(&id)), U::Cancel { order_id: id })); }
+    for (id, n) in [(a, 0u64), (a, 1), (a, 4), (a, 9), (b, 0), (b, 4)] {
+        alpha.push(X::Upd(format!("upd qty {} {}", show_id(&id), n), U::UpdateQuantity { order_id: id, new_quantity: n }));
+    }
+    for p in [price + 1, price] {
+        alpha.push(X::Upd(format!("upd price {} {}", show_id(&a), p), U::UpdatePrice { order_id: a, new_price: p }));
+        alpha.push(X::Upd(format!("upd pq {} {} 3", show_id(&a), p), U::UpdatePriceAndQuantity { order_id: a, new_price: p, new_quantity: 3 }));
+    }
+    alpha.push(X::Upd(format!("upd replace {} {} 3 {}", show_id(&a), price, show_side(Side::Buy)),
+        U::Replace { order_id: a, price, quantity: 3, side: Side::Buy }));
+    alpha.push(X::Upd(format!("upd replace {} {} 3 {}", show_id(&a), price + 2, show_side(Side::Sell)),
+        U::Replace { order_id: a, price: price + 2, quantity: 3, side: Side::Sell }));
+    alpha.push(X::Add(mk_order(0, a, price, 4, 0, 0, None, false, Side::Sell, 5, g)));
+    alpha.push(X::Add(mk_order(0, c, price, 1, 0, 0, None, false, Side::Sell, 0, g)));
+    alpha.push(X::Read("snapshot"));
+    let na = alpha.len() as u64;
+    let generator = UuidGenerator::new(Uuid::from_u128(crate::run::NS));
+    let mut case = 0u64;
+    let mut emit = |i1: usize, i2: usize, ops: &[u64]| {
+        let lvl = PriceLevel::new(price);
+        out.push(format!("case x{case}"));
+        case += 1;
+        out.push(format!("new {price}"));
+        out.push(format!("add {}", show_order(&o1s[i1])));
+        lvl.add_order(o1s[i1].clone());
+        if let Some(o) = &o2s[i2] {
+            out.push(format!("add {}", show_order(o)));
+            lvl.add_order(o.clone());
+        }
+        out.push("state".to_string());
+        for &k in ops {
+            match &alpha[k as usize] {
+                X::Match(q) => {
+                    out.push(format!("match {} {}", q, show_id(&t)));
+                    let _ = lvl.match_order(*q, t, &generator);
+                }
+                X::Upd(line, u) => {
+                    out.push(line.clone());
+                    let _ = lvl.update_order(u.clone());
+                }
+                X::Add(o) => {
+                    // ids stay unique among resting orders (the properties' quantifier): skip when live
+                    if lvl.iter_orders().iter().any(|x| x.id() == o.id()) { continue; }
+                    out.push(format!("add {}", show_order(o)));
+                    lvl.add_order(o.clone());
+                }
+                X::Read(what) => { out.push(format!("read {what}")); continue; }
+            }
+            out.push("state".to_string());
+        }
+        out.push(format!("match {} {}", 1u64 << 62, show_id(&pool_id(999))));
+        out.push("state".to_string());
+    };
+    let shard = seed % 1000;
+    if !thorough {
+        for i1 in 0..o1s.len() { for i2 in 0..o2s.len() { for k in 0..na { emit(i1, i2, &[k]); } } }
+        let mut r = Rng::new(seed ^ 0x5345_5158);
+        for _ in 0..1500 {
+            let (i1, i2) = (r.below(o1s.len() as u64) as usize, r.below(o2s.len() as u64) as usize);
+            emit(i1, i2, &[r.below(na), r.below(na)]);
+        }
+    } else {
+        let nsh = 14u64;
+        let mut n = 0u64;
+        for i1 in 0..o1s.len() { for i2 in 0..o2s.len() { for k1 in 0..na { for k2 in 0..na {
+            n += 1;
+            if n % nsh == shard % nsh { emit(i1, i2, &[k1, k2]); }
+            for k3 in 0..na {
+                n += 1;
+                if n % nsh == shard % nsh { emit(i1, i2, &[k1, k2, k3]); }
+            }
+        } } } }
+    }
+}
+
 /// E-seq for the exported OrderQueue (C19): push / pop / find / remove / len / is_empty / to_vec,
 /// ids pushed once or re-pushed after removal; queues built from lists. The generator drives a
 /// private copy of the real queue only to learn which ids are queued.
